@@ -172,6 +172,28 @@ pub fn replay_open_findings(ev: &mut Evidence, findings: &Findings, prop: &str, 
         let Ok(text) = std::fs::read_to_string(&path) else { continue };
         let Ok(v) = serde_json::from_str::<serde_json::Value>(&text) else { continue };
         let case = if v["case"].is_object() { &v["case"] } else { &v };
+        // hand-written repro: a file set plus the struct names the output has to define
+        if case["fileset"].is_object() && case["expect_structs"].is_array() {
+            ev.class("known-finding-replays");
+            let fs: crate::zeep::FileSet = serde_json::from_value(case["fileset"].clone()).expect("fileset");
+            let want: Vec<String> = case["expect_structs"].as_array().unwrap().iter().filter_map(|x| x.as_str().map(str::to_string)).collect();
+            let sig = match crate::worker::run_single(&fs) {
+                Outcome::Ok { output, .. } => {
+                    let have = crate::c11::struct_names(&output);
+                    let missing: Vec<&String> = want.iter().filter(|w| !have.contains(w)).collect();
+                    if missing.is_empty() { None } else { Some(format!("{prop} missing-structs:{}", missing.iter().map(|s| s.as_str()).collect::<Vec<_>>().join(","))) }
+                }
+                o => Some(format!("{prop} generator:{}", o.class())),
+            };
+            match sig {
+                Some(sig) if f.signatures.iter().any(|s| *s == sig) => ev.known_finding(f),
+                Some(sig) => {
+                    ev.violation("known-finding-repro-fails-differently", &sig, json!({"finding": f.id, "fileset": fs, "expect_structs": want}));
+                }
+                None => ev.class("known-finding-no-longer-reproduces"),
+            }
+            continue;
+        }
         let (Ok(raw), Ok(profile)) = (serde_json::from_value::<RawModel>(case["raw"].clone()), serde_json::from_value::<Profile>(case["profile"].clone())) else { continue };
         ev.class("known-finding-replays");
         match judge(&raw, &profile) {
